@@ -10,6 +10,7 @@
 import JanetModel.Thread.EndToEnd
 import JanetModel.Thread.SpawnLemmas
 import JanetModel.Thread.Payload
+import JanetModel.Thread.LockCert
 
 namespace JanetModel.Props.C08
 open JanetModel.Thread
@@ -686,5 +687,47 @@ example : (rrun { increfBeforeSend := true, recvKnownDecref := true } [.send 0, 
 example : (rrun { increfBeforeSend := true, recvKnownDecref := true } [.send 0, .discard, .use 0, .drop 0, .sweep 0] {}).freed = true ∧
     (rrun { increfBeforeSend := true, recvKnownDecref := true } [.send 0, .discard, .use 0, .drop 0, .sweep 0] {}).useAfterFree = false := by decide
 example : (rrun { increfBeforeSend := true, recvKnownDecref := true } [.send 0, .send 0, .recv 1, .discard, .drop 0, .sweep 0] {}).freed = false := by decide
+
+/-! ### lock discipline of the threaded-channel functions (path-level certificate, `Thread/LockCert.lean`) -/
+
+open JanetModel.Thread.LockCert in
+/-- ★ every path through an accepted function - every branch, any number of loop iterations, a panic at any panic site or
+    inside a `..._with_lock` callee - ends by leaving the function with the channel mutex RELEASED; on the way the mutex is
+    never taken while held, never released while not held, the channel's queues / `closed` / `limit` are only touched while
+    it is held, and the path released exactly as often as it acquired (+1 when the function is entered with the lock held):
+    every acquisition is released exactly once.  `accepts` is evaluated by the kernel on the statement trees regenerated
+    from ev.c (`Current.lock_discipline_current`). -/
+theorem lock_paths_release_exactly_once (pre : Bool) (body : LS) (hacc : accepts pre body = true) (o : Out)
+    (hr : Run (.seq body .ret) { held := pre } o) :
+    ∃ s', o = .exit s' ∧ s'.held = false ∧ s'.rel = s'.acq + b2n pre := by
+  have hc : chk (.seq body .ret) pre none = some none := by simpa [accepts] using hacc
+  have g := chk_sound hr none none hc
+  cases o with
+  | fall s' => simp [Good] at g
+  | brk s' => simp [Good] at g
+  | cont s' => simp [Good] at g
+  | fault => exact absurd g (by simp [Good])
+  | exit s' =>
+    have hh : s'.held = false := g
+    have hcnt := run_counts hr s' rfl
+    refine ⟨s', rfl, hh, ?_⟩
+    simp only [hh, b2n] at hcnt ⊢
+    simp at hcnt
+    omega
+
+open JanetModel.Thread.LockCert in
+/-- the checker rejects the two classic slips: an early return that keeps the mutex (seed C08-3: the closed-channel panic
+    of janet_channel_push_with_lock without its unlock), and a second unlock on one path -/
+theorem lock_discipline_counterexamples :
+    accepts true (.seq (.ite true .panic .skip) (.seq .unlock .ret)) = false ∧
+    accepts false (.seq .lock (.seq (.ite true (.seq .unlock .ret) .skip) (.seq .unlock (.seq .unlock .ret)))) = false ∧
+    accepts false (.seq .access (.seq .lock (.seq .unlock .ret))) = false := by
+  decide
+
+open JanetModel.Thread.LockCert in
+example : accepts true (.seq (.ite true (.seq .unlock .panic) .skip) (.seq (.loop true (.ite false .brk .skip)) (.seq .unlock .ret))) = true := by decide
+open JanetModel.Thread.LockCert in
+example : Run (.seq (.seq .lock (.seq .access .unlock)) .ret) { held := false } (.exit { held := false, acq := 1, rel := 1 }) :=
+  .seq_fall _ _ _ _ _ (.seq_fall _ _ _ _ _ (.lock_ok _ rfl) (.seq_fall _ _ _ _ _ (.access_ok _ rfl) (.unlock_ok _ rfl))) (.ret _)
 
 end JanetModel.Props.C08
